@@ -26,6 +26,43 @@ ARMS = {"refresh-cleanup", "refused-foreign-entry", "refused-out-of-scope-delete
         "sync-ok-creates", "sync-ok-deletes"}
 
 
+def edge_cover_walk(edges, start):
+    """Deterministic walk over the model's transition graph that takes every edge at least once
+    (greedy: nearest uncovered edge by breadth-first search)."""
+    succ = {}
+    for (a, act, b) in edges:
+        succ.setdefault(a, []).append((act, b))
+    todo = set(edges)
+    cur, walk = start, []
+    while todo:
+        # BFS from cur to the closest state with an uncovered outgoing edge
+        seen, queue, path = {cur: None}, [cur], None
+        while queue:
+            x = queue.pop(0)
+            unc = [(act, b) for (act, b) in succ.get(x, []) if (x, act, b) in todo]
+            if unc:
+                path = []
+                y = x
+                while seen[y] is not None:
+                    path.append(seen[y])
+                    y = seen[y][0]
+                path.reverse()
+                act, b = unc[0]
+                path.append((x, act, b))
+                break
+            for (act, b) in succ.get(x, []):
+                if b not in seen:
+                    seen[b] = (x, act, b)
+                    queue.append(b)
+        if path is None:
+            raise lib.ToolError("transition graph of KSyncYieldMC is not strongly connected from the initial state")
+        for e in path:
+            walk.append(e)
+            todo.discard(e)
+        cur = path[-1][2]
+    return walk
+
+
 def run(tier, replay):
     R = lib.Result(PID, tier, META["level"])
     wd = lib.workdir(PID)
@@ -35,12 +72,28 @@ def run(tier, replay):
     arms = {t[1] for t in mc["tuples"] if t[0] == "ARM"}
     if arms != ARMS:
         lib.tool_error(f"vacuity guard: arms not exercised by the exhaustive run: {sorted(ARMS - arms)}")
+    # yield authority over time: stored records vs the snapshot the access checks use (KSyncYieldMC)
+    ymc = lib.tlc("KSyncYieldMC", cfg="KSyncYieldMC", pid=PID, workers=1, timeout=600)
+    lib.tlc_must_pass(ymc, "KSyncYieldMC: published yield snapshot vs stored yield records")
+    edges = sorted({tuple(t[1:4]) for t in ymc["tuples"] if t[0] == "EDGE"})
+    if len(edges) < 50:
+        lib.tool_error(f"KSyncYieldMC printed only {len(edges)} transitions")
+    skip = lib.tlc("KSyncYieldMC", cfg="KSyncYieldMCskip", pid=PID, workers=1, timeout=600)
+    if skip["error"] or "Inv" not in skip["violated"]:
+        lib.tool_error("sensitivity guard: the model does not tell 'publish always' from 'skip the empty map' apart")
+    walk = edge_cover_walk(edges, "0,0")
+    wf = f"{wd}/yieldwalk.ndjson"
+    with open(wf, "w") as fh:
+        for (_, act, _) in walk:
+            parts = act.split(":")
+            y = [] if parts[0] == "clear" else {"d": ["description"], "dl": ["description", "legalname"]}[parts[2]]
+            fh.write(json.dumps({"ag": parts[1], "y": y}) + "\n")
     obs = f"{wd}/obs.ndjson"
     if replay:
         lib.kverif("access", ["c50", "--out", obs, "--replay", replay])
     else:
         h, s = (8, 25) if tier == "quick" else (60, 40)
-        lib.kverif("access", ["c50", "--out", obs, "--histories", h, "--steps", s, "--seed", lib.seed()], timeout=3000)
+        lib.kverif("access", ["c50", "--out", obs, "--histories", h, "--steps", s, "--seed", lib.seed(), "--yieldwalk", wf], timeout=3000)
     tv = lib.trace_validate("KSyncTrace", obs, PID, timeout=3000)
     lines = lib.read_lines(obs)
     recs = [json.loads(l) for l in lines]
@@ -71,7 +124,7 @@ def run(tier, replay):
     def has(r, pred):
         return r["a"] == "sync" and any(pred(e) for e in r["req"]["entries"])
     R.coverage = {
-        "states": mc["distinct"], "transitions": mc["generated"],
+        "states": mc["distinct"] + ymc["distinct"], "transitions": mc["generated"] + ymc["generated"],
         "traces_validated_against_impl": len(steps),
         "samples": lib.sample([strip(l) for l, r in zip(lines, recs) if r["a"] == "sync"]),
         "l2_drift": len(tv["drift"]),
@@ -84,6 +137,10 @@ def run(tier, replay):
         "reserved_range_requests_refused": sum(1 for r in steps if r["res"] != "ok" and has(r, lambda e: e["id"].startswith("b"))),
         "reserved_range_requests_succeeded": sum(1 for r in steps if r["res"] == "ok" and has(r, lambda e: e["id"].startswith("b"))),
         "model_arms_exercised": sorted(ARMS),
+        "yield_model_states": ymc["distinct"], "yield_model_transitions_lived": len(edges), "yield_walk_steps": len(walk),
+        "user_modifies_after_yield_commits": sum(1 for r in steps if r["a"] == "umod" and json.dumps(r["ml"]).find('"w') >= 0),
+        "user_modifies_allowed_by_yield": sum(1 for r in steps if r["a"] == "umod" and r["res"] == "ok" and r["t"] in ("e1", "e2", "e3")
+                                              and any(m["a"] in ("description", "legalname") for m in r["ml"])),
         "rule": "every step of a real history is one validated trace line: L1 (KSync!L1Sync / L1UserMod) judges population before/after",
     }
     R.assumptions = ["memberof/directmemberof/last_modified_cid are server-maintained consequences and not 'changes' of a foreign entry",
